@@ -409,7 +409,7 @@ impl IoLoop {
                 }
                 if event.readiness().is_readable() {
                     let after_handshake = &mut self.frames_after_handshake;
-                    self.inner.read_from_stream(
+                    let result = self.inner.read_from_stream(
                         stream,
                         &mut self.frame_buffer,
                         |inner, frame| match state {
@@ -419,7 +419,33 @@ impl IoLoop {
                             }
                             _ => state.process(inner, frame),
                         },
-                    )?;
+                    );
+                    // A broker that refuses us, or goes down right after accepting us, may
+                    // hang up without waiting for the CloseOk. When the stream ends behind
+                    // its Connection.Close in the same pass, the close is what happened.
+                    if result.is_err() {
+                        match state {
+                            HandshakeState::ServerClosing(_) => {
+                                self.inner.outbuf.clear();
+                                return Ok(());
+                            }
+                            HandshakeState::Done(_, _)
+                                if self.frames_after_handshake.iter().any(|frame| match frame {
+                                    AMQPFrame::Method(
+                                        0,
+                                        AMQPClass::Connection(
+                                            amq_protocol::protocol::connection::AMQPMethod::Close(_),
+                                        ),
+                                    ) => true,
+                                    _ => false,
+                                }) =>
+                            {
+                                return Ok(());
+                            }
+                            _ => {}
+                        }
+                    }
+                    result?;
                 }
             }
             HEARTBEAT => self.inner.process_heartbeat_timers()?,
